@@ -172,6 +172,9 @@ class ScriptedApps:
         except AppCrash as e:
             outcome = "raise"
             raise
+        except ExceptionGroup as e:
+            outcome = "raise"
+            raise
         except BaseException as e:
             outcome = "base:" + type(e).__name__
             raise
@@ -288,6 +291,9 @@ class ScriptedApps:
                 kind = step[1] if len(step) > 1 else "Exception"
                 if kind == "BaseException":
                     raise AppBaseCrash("scripted base crash")
+                if kind == "ExceptionGroup":
+                    # what an application built on task groups / nurseries raises when one of its child tasks fails
+                    raise ExceptionGroup("scripted crash in a child task", [AppCrash("scripted crash")])
                 raise AppCrash("scripted crash")
             elif op == "return":
                 return
